@@ -161,6 +161,114 @@ def run_object(case):
     except Exception as e:
         out["exc"] = type(e).__name__ + ": " + str(e)[:200]
     out["res"] = res
+    if case.get("grid", True):
+        try:
+            out["grid"] = record_grid(case, c, R, d)
+        except Exception as e:
+            import traceback
+            out["grid"] = dict(crash=type(e).__name__ + ": " + str(e)[:200], tb=traceback.format_exc()[-600:])
+    return out
+
+
+def record_grid(case, c, R, d):
+    """Observe, at the trimesh boundary, every ray direction canSee casts at the target when nothing is ever hit (so that no
+    batch returns early): a fresh viewer/target, a dummy occluder that blocks the centre ray (so the quick centre test never
+    answers), and a stub RayMeshIntersector.intersects_location.  Returns the per-row summary of the rays in the viewer
+    frame + the mesh (viewer-frame vertices, edges) the model needs."""
+    import trimesh.ray.ray_triangle as rt
+    viewer = make_viewer(case["viewer"])
+    target = make_obj(case["target"])
+    dummy = make_obj(dict(shape="box", dims=[0.01, 0.01, 0.01], pos=[float(x) for x in c], occluding=True))
+    tmesh = target.occupiedSpace.mesh
+    rec = []
+    orig = rt.RayMeshIntersector.intersects_location
+
+    def fake(self, ray_origins, ray_directions, **kw):
+        dirs = np.asarray(ray_directions, dtype=float)
+        if self.mesh is tmesh:
+            rec.append(dirs.copy())
+            return np.zeros((0, 3)), np.zeros(0, dtype=int), np.zeros(0, dtype=int)
+        o = np.asarray(ray_origins, dtype=float)
+        return o.copy(), np.arange(len(o)), np.zeros(len(o), dtype=int)
+    out = {}
+    rt.RayMeshIntersector.intersects_location = fake
+    try:
+        try:
+            out["res"] = bool(viewer.canSee(target, occludingObjects=(dummy,)))
+        except AssertionError:
+            out["exc"] = "AssertionError"
+        except Exception as e:
+            out["exc"] = type(e).__name__ + ": " + str(e)[:200]
+    finally:
+        rt.RayMeshIntersector.intersects_location = orig
+    V = np.asarray(tmesh.vertices, dtype=float) - c
+    if R is not None:
+        V = V @ R                      # rows: R^T (v - c)
+    out["verts"] = V.tolist()
+    out["edges"] = np.asarray(tmesh.edges).tolist()
+    out["surface_dist"] = float(trimesh.proximity.closest_point(tmesh, [c])[1][0])
+    out["cam_inside"] = bool(tmesh.contains([c])[0]) if tmesh.is_watertight else False
+    if rec:
+        W = np.concatenate(rec, axis=0)
+        if R is not None:
+            W = W @ R
+        az = np.arctan2(-W[:, 0], W[:, 1])
+        az = np.where(az < -math.pi + 1e-6, az + 2 * math.pi, az)     # -pi and +pi are the same direction
+        alt = np.arctan2(W[:, 2], np.hypot(W[:, 0], W[:, 1]))
+        order = np.argsort(alt, kind="stable")
+        az, alt = az[order], alt[order]
+        rows = []
+        i = 0
+        while i < len(alt):
+            j = i
+            while j + 1 < len(alt) and alt[j + 1] - alt[j] < 1e-9:
+                j += 1
+            a = az[i:j + 1]
+            rows.append([float(np.mean(alt[i:j + 1])), int(j - i + 1), float(a.min()), float(a.max()), float(a.sum()), float((a * a).sum())])
+            i = j + 1
+        out["nrays"] = int(len(alt))
+        out["rows"] = rows
+    else:
+        out["nrays"] = 0
+        out["rows"] = []
+    return out
+
+
+def run_2d(case):
+    """2D compatibility classes: _canSee2D fast path (no occluders)"""
+    from scenic.core.object_types import Object2D, OrientedPoint2D, Point2D
+    from scenic.core.vectors import Vector
+    v = case["viewer"]
+    kw = dict(position=Vector(v["pos"][0], v["pos"][1], 0), visibleDistance=v["d"])
+    if v["cls"] == "Point2D":
+        viewer = Point2D._with(**kw)
+    else:
+        kw.update(heading=v["heading"], viewAngle=v["angle"])
+        if v["cls"] == "OrientedPoint2D":
+            viewer = OrientedPoint2D._with(**kw)
+        else:
+            kw.update(cameraOffset=Vector(v["cam"][0], v["cam"][1], 0), width=1.0, length=1.0)
+            viewer = Object2D._with(**kw)
+    t = case["target"]
+    if t["kind"] == "vector":
+        target = Vector(*t["pos"])
+    elif t["kind"] == "point":
+        target = Point2D._with(position=Vector(t["pos"][0], t["pos"][1], 0))
+    elif t["kind"] == "opoint":
+        target = OrientedPoint2D._with(position=Vector(t["pos"][0], t["pos"][1], 0), heading=0.3)
+    else:
+        target = Object2D._with(position=Vector(t["pos"][0], t["pos"][1], 0), heading=t["heading"], width=t["dims"][0], length=t["dims"][1])
+    # camera computed independently of Scenic
+    c = np.array([v["pos"][0], v["pos"][1], 0.0])
+    if v["cls"] == "Object2D":
+        hd = v["heading"]
+        c = c + np.array([math.cos(hd) * v["cam"][0] - math.sin(hd) * v["cam"][1], math.sin(hd) * v["cam"][0] + math.cos(hd) * v["cam"][1], 0.0])
+    out = dict(c=c.tolist(), d=float(viewer.visibleDistance), heading=float(v.get("heading", 0.0)),
+               angle=float(viewer.viewAngle) if v["cls"] != "Point2D" else math.tau)
+    try:
+        out["res"] = bool(viewer.canSee(target))
+    except Exception as e:
+        out["exc"] = type(e).__name__ + ": " + str(e)[:200]
     return out
 
 
@@ -186,7 +294,7 @@ def run_plumbing(case):
 
 def main():
     job = json.load(sys.stdin)
-    fn = dict(points=run_point, objects=run_object, plumbing=run_plumbing)[job["kind"]]
+    fn = dict(points=run_point, objects=run_object, plumbing=run_plumbing, twod=run_2d)[job["kind"]]
     results = []
     for case in job["cases"]:
         try:
